@@ -81,6 +81,11 @@ func ValueOf(k cesium.ChannelKey, i int, grid []telem.TimeStamp) string {
 	case U8:
 		return fmt.Sprint(16 + i)
 	case Str:
+		// variable length, including empty samples (every fourth, among them the last of a
+		// two-sample commit ending at an odd index)
+		if i%4 == 1 {
+			return ""
+		}
 		return fmt.Sprintf("s%d%s", i, strings.Repeat("x", i%3))
 	}
 	panic("bad key")
@@ -147,6 +152,9 @@ type Config struct {
 	Channels   []cesium.ChannelKey
 	GC         float32 // GC threshold (0 = default)
 	FS         xfs.FS  // optional (default: fresh MemFS)
+	// PointReads asks a schedx harness to wrap the file system so that file reads are
+	// scheduling points (interpreted by the harness, not by cz).
+	PointReads bool
 }
 
 type dom struct{ s, e telem.TimeStamp } // half-open range a session committed for a channel
@@ -172,6 +180,9 @@ type World struct {
 	Doms     map[cesium.ChannelKey][]dom
 	sess     [2]*session
 	Poisoned string // set when a script step the model considers legal was refused
+	// PartialDelete is set once a multi-channel delete was refused after it had already been
+	// applied to some of its channels (it names the situation in read-mismatch fingerprints).
+	PartialDelete bool
 	Reads    int
 	mu       sync.Mutex // guards the reference model when harness threads run concurrently (C09)
 }
@@ -670,11 +681,46 @@ func (w *World) CheckRead(tag string, a, b telem.TimeStamp) error {
 		}
 		want := w.Expected(k, a, b)
 		if !equal(got, want) {
-			kind := classify(got, want)
+			kind := classify(got, want) + w.iterErrClass(k, a, b)
+			if w.PartialDelete {
+				kind += ":after-a-delete-refused-for-the-index-but-applied-to-its-data-channels"
+			}
 			return vk.Violationf("read-mismatch:"+kind, "[%s] Read[%s,%s) channel %d returned %v, committed samples in range are %v (model %s)", tag, tsName(w, a), tsName(w, b), k, got, want, w.ModelCanon())
 		}
 	}
 	return nil
+}
+
+// iterErrClass re-reads the range of one channel through an iterator and names the error
+// it reports, if any: DB.Read returns whatever was collected and drops iterator errors, so a
+// read that silently lost samples because the iterator failed is told apart from one that
+// returned wrong samples without any error.
+func (w *World) iterErrClass(k cesium.ChannelKey, a, b telem.TimeStamp) string {
+	it, err := w.DB.OpenIterator(cesium.IteratorConfig{Channels: []cesium.ChannelKey{k}, Bounds: telem.TimeRange{Start: a, End: b}})
+	if err != nil {
+		return ":iterator-open-error"
+	}
+	defer func() { _ = it.Close() }()
+	if it.SeekFirst() {
+		for n := 0; n < 64 && it.Next(telem.TimeSpanMax); n++ {
+		}
+	}
+	e := it.Error()
+	if e == nil {
+		return ""
+	}
+	m := e.Error()
+	switch {
+	case strings.Contains(m, "(0s) is not continuous in the index"):
+		return ":iterator-error:zero-span-range-not-continuous-in-index"
+	case strings.Contains(m, "is not continuous in the index"):
+		return ":iterator-error:range-not-continuous-in-index"
+	case strings.Contains(m, "does not exist in the index"):
+		return ":iterator-error:timestamp-not-in-index"
+	case strings.Contains(m, "failed to resolve position"):
+		return ":iterator-error:position-unresolvable"
+	}
+	return ":iterator-error:other"
 }
 
 func equal(a, b []string) bool {
@@ -918,6 +964,7 @@ func (w *World) ApplyDel(op string) (string, error) {
 			return "", vk.Violationf("failed-delete-partial", "%s failed (%v) and left channel %d with %v: neither the previous content %v nor the deleted content %v", desc, err, c, got, before, after)
 		}
 		obs = "refused-partial"
+		w.PartialDelete = true
 	}
 	if mustRefuse {
 		return obs + "-index-guard", nil
